@@ -76,9 +76,12 @@ def inprocOne : Judge := liftJudge fun input obs => do
   -- subscription state through the C14 model / spec
   let ops : List Op := (clients.filter (fun c => !c.subs.isEmpty)).map fun c =>
     .subscribe c.id (c.subs.map fun s => (s.1.toList, s.2))
-  let trie := (EgVerif.Topic.run State.init ops).trie
-  let subs := specRun [] ops
-  let real := (clients.filter (fun c => !c.ghost)).map (·.id)
+  let mut tst : State := EgVerif.Topic.run State.init ops
+  let mut subs := specRun [] ops
+  let mut real := (clients.filter (fun c => !c.ghost)).map (·.id)
+  let nClients := real.length
+  let limit := (optInt input "limit").toNat
+  let mut pubSeen : List (String × Nat) := []
   let mut online : List String := real
   let mut sess : List (String × Sess) := real.map (fun c => (c, Sess.init))
   let mut unackObs : List (String × List (Nat × String)) := real.map (fun c => (c, []))
@@ -116,7 +119,7 @@ def inprocOne : Judge := liftJudge fun input obs => do
       let fullOn := qosI == 0 && bad == ""
       let lvO := split topic.toList
       if lvO.isNone then acc := acc.tag "topic:malformed"
-      let hits := match lvO with | some lv => find trie lv | none => []
+      let hits := match lvO with | some lv => find tst.trie lv | none => []
       let m := collapseMax hits
       let conn : Client → Bool := fun c => online.contains c
       let delivered := if valid then send conn q m else []
@@ -195,6 +198,62 @@ def inprocOne : Judge := liftJudge fun input obs => do
           else nontriv := true
         | _, _ =>
           if !got.isEmpty then acc := acc.fail "resend:after-ack" s!"event {i-1} client {c}: [{showPkts got}] but nothing pending / offline"
+    else if k == "sub" || k == "unsub" || k == "disc" then
+      -- the routing state changes between messages: C14's model / abstract set, step by step
+      let c := optStr ev "c"
+      if real.contains c then
+        let op : Option Op :=
+          if k == "sub" then
+            let l := ((getArr ev "subs").toOption.getD #[]).toList.map fun j => ((optStr j "f").toList, (optInt j "q").toNat)
+            if l.isEmpty then none else some (.subscribe c l)
+          else if k == "unsub" then
+            let l := ((getStrList ev "fs").toOption.getD []).map String.toList
+            if l.isEmpty then none else some (.unsubscribe c l)
+          else some (.disconnect c)
+        match op with
+        | some o =>
+          let before := subs.length
+          tst := (step tst o).1
+          subs := specStep subs o
+          acc := acc.tag s!"history:{k}"
+          if subs.length < before then acc := acc.tag "history:removes-subscription"
+        | none => pure ()
+        if k == "disc" then
+          real := real.filter (· != c)
+          online := online.filter (· != c)
+    else if k == "pub" then
+      let c := optStr ev "c"
+      if real.contains c then
+        let pubs := ((getArr ev "pubs").toOption.getD #[]).toList.map fun j =>
+          (optStr j "topic", (optInt j "qos").toNat, (optInt j "id").toNat)
+        let mut seen := lookupD c pubSeen 0
+        let mut wantAcks : List Nat := []
+        let mut wantPipe : List (String × Nat × Nat) := []
+        for (tp, q, id) in pubs do
+          let limiterOK := limit == 0 || seen < limit
+          seen := seen + 1
+          let v : PipeVerdict := if tp.startsWith "drop/" then .drop else .ok
+          let o := onPublish limiterOK v q id
+          if o.handed then wantPipe := wantPipe ++ [(tp, id, q)]
+          match o.puback with
+          | some a => wantAcks := wantAcks ++ [a]
+          | none => pure ()
+          if !limiterOK then acc := acc.tag "inbound:limited"
+          if v == .drop then acc := acc.tag "inbound:pipeline-drop"
+        pubSeen := alSet c seen pubSeen
+        let gotAcks := ((getIntList so "acks").toOption.getD []).map Int.toNat
+        let gotPipe := ((getArr so "pipe").toOption.getD #[]).toList.map fun j =>
+          (optStr j "topic", (optInt j "id").toNat, (optInt j "qos").toNat)
+        acc := acc.tag (if wantAcks.length ≥ 2 then "inbound:puback-burst" else "inbound:publish")
+        if wantAcks.length ≥ 2 then nontriv := true
+        if gotAcks != wantAcks then
+          acc := acc.dis s!"event {i-1} client {c}: PUBACK ids on the wire {gotAcks}, model {wantAcks}"
+          -- spec = the statement itself: every admitted QoS1 PUBLISH is acknowledged with its own id
+          acc := acc.fail (if gotAcks.length == wantAcks.length then "inbound:puback-wrong-id" else "inbound:puback-count")
+            s!"event {i-1} client {c}: PUBACK ids on the wire {gotAcks}, published (admitted, QoS1, not dropped) {wantAcks}"
+        if gotPipe != wantPipe then
+          acc := acc.dis s!"event {i-1} client {c}: pipeline saw {gotPipe}, model {wantPipe}"
+          acc := acc.fail "inbound:pipeline-mismatch" s!"event {i-1} client {c}: pipeline saw {gotPipe}, expected {wantPipe}"
     else if k == "off" then
       online := online.filter (· != optStr ev "c"); acc := acc.tag "client-offline"
     else if k == "on" then
@@ -209,7 +268,7 @@ def inprocOne : Judge := liftJudge fun input obs => do
     expected := expected.push (Json.mkObj [("st", Json.num expStatus),
       ("out", Json.mkObj (expOut.map fun (c, ps) => (c, Json.arr (ps.map fun p => Json.str s!"{p.id}:{p.qos}:{p.payload}").toArray)))])
   pure { agree := acc.agree, spec := acc.spec, expected := Json.mkObj [("steps", Json.arr expected)],
-         tags := acc.tags ++ [s!"clients={real.length}"], nontrivial := nontriv, sig := acc.sig, note := acc.note }
+         tags := acc.tags ++ [s!"clients={nClients}"], nontrivial := nontriv, sig := acc.sig, note := acc.note }
 
 /-- the harness may run a scenario several times on fresh state (`"runs"`): the first run that violates
 the spec (else the first that disagrees with the model) decides. -/
@@ -241,53 +300,68 @@ def wire : Judge := liftJudge fun input obs => do
   | some m => pure { agree := false, spec := false, sig := "panic", note := m }
   | none =>
   if optStr obs "err" != "" then
-    return { agree := false, spec := true, note := "harness: " ++ optStr obs "err", nontrivial := false }
+    -- the scenario could not be set up / a generous wait expired (slow box): nothing can be concluded
+    return { agree := true, spec := true, note := "harness: " ++ optStr obs "err", nontrivial := false,
+             tags := ["inconclusive:setup"] }
   let clientsJ ← getArr input "clients"
-  let mut clients : List (String × List (String × Nat) × String) := []
+  -- (id, subs, ack mode, unsubscribed filters, leaves)
+  let mut clients : List (String × List (String × Nat) × String × List String × Bool) := []
   for j in clientsJ.toList do
     let id := optStr j "id"
     if id.isEmpty || clients.any (fun c => c.1 == id) then continue
     let subsJ ← getArr j "subs"
-    clients := clients ++ [(id, subsJ.toList.map (fun s => (optStr s "f", (optInt s "q").toNat)), optStr j "ack")]
+    clients := clients ++ [(id, subsJ.toList.map (fun s => (optStr s "f", (optInt s "q").toNat)), optStr j "ack",
+      (getStrList j "unsub").toOption.getD [], optBool j "leave")]
   let msgs ← getArr input "msgs"
   let inbound ← getArr input "inbound"
   let limit := (optInt input "limit").toNat
-  let window := let w := (optInt input "window_ms").toNat; if w == 0 then 700 else w
-  let ops : List Op := (clients.filter (fun c => !c.2.1.isEmpty)).map fun c =>
-    .subscribe c.1 (c.2.1.map fun s => (s.1.toList, s.2))
+  let canary := (optInt obs "canary").toNat
+  -- the history: everybody subscribes, then the UNSUBSCRIBEs, then the disconnects (C14's abstract set)
+  let ops : List Op :=
+    ((clients.filter (fun c => !c.2.1.isEmpty)).map fun c => Op.subscribe c.1 (c.2.1.map fun s => (s.1.toList, s.2)))
+    ++ ((clients.filter (fun c => !c.2.2.2.1.isEmpty)).map fun c => Op.unsubscribe c.1 (c.2.2.2.1.map String.toList))
+    ++ ((clients.filter (fun c => c.2.2.2.2)).map fun c => Op.disconnect c.1)
   let subs := specRun [] ops
-  let conn : Client → Bool := fun c => clients.any (fun d => d.1 == c)
+  let present := clients.filter (fun c => !c.2.2.2.2)
+  let conn : Client → Bool := fun c => present.any (fun d => d.1 == c)
   let rxO := (obs.getObjVal? "rx").toOption.getD Json.null
   let paO := (obs.getObjVal? "pubacks").toOption.getD Json.null
   let mut acc : Acc := {}
   let mut nontriv := false
+  if clients.any (fun c => c.2.2.2.2) then acc := acc.tag "history:leave"
+  if clients.any (fun c => !c.2.2.2.1.isEmpty) then acc := acc.tag "history:unsubscribe"
+  if optBool input "burst" then acc := acc.tag "inbound-burst"
   -- HTTP: every injection is valid
   let http := (getIntList obs "http").toOption.getD []
   if http.length != msgs.size || http.any (· != 200) then
     acc := acc.fail "http:rejected-good" s!"http statuses {http}"
-  for (cid, _, ackMode) in clients do
-    let rx := ((getStrList rxO cid).toOption.getD []).map parsePkt
+  for (cid, _, ackMode, _, _) in present do
+    let log := (getStrList rxO cid).toOption.getD []
+    let barriers := (log.filter (· == "!barrier")).length
+    let rxAll := (log.filter (fun e => !e.startsWith "!")).map parsePkt
     acc := acc.tag s!"ack={ackMode}"
-    -- delivery: payloads of the messages this client is eligible for, each at least once, nothing else
+    if barriers < 1 then acc := acc.tag "inconclusive:no-barrier"
+    -- delivery: payloads of the messages this client is eligible for, each at least once, nothing else.
+    -- "never arrived" is conclusive only after barrier 1 (all fan-outs finished + one round trip).
     for mj in msgs.toList do
       let topic := optStr mj "topic"; let q := (optInt mj "qos").toNat; let pl := optStr mj "payload"
-      let el := match split topic.toList with | some lv => eligible subs conn lv q cid | none => false
-      let copies := rx.filter (fun p => p.payload == pl)
-      if el && copies.isEmpty then
-        let otherLower := subs.any (fun e => e.2.1 != cid && (match split topic.toList with | some lv => «matches» e.1 lv | none => false) && e.2.2 < q)
-        let ownLower := subs.any (fun e => e.2.1 == cid && (match split topic.toList with | some lv => «matches» e.1 lv | none => false) && e.2.2 < q)
+      let lvO := split topic.toList
+      let el := match lvO with | some lv => eligible subs conn lv q cid | none => false
+      let copies := rxAll.filter (fun p => p.payload == pl)
+      if el && copies.isEmpty && barriers ≥ 1 then
+        let otherLower := subs.any (fun e => e.2.1 != cid && (match lvO with | some lv => «matches» e.1 lv | none => false) && e.2.2 < q)
+        let ownLower := subs.any (fun e => e.2.1 == cid && (match lvO with | some lv => «matches» e.1 lv | none => false) && e.2.2 < q)
         acc := acc.fail (if ownLower then "wire:eligible-missed:own-lower-qos-overlap"
             else if otherLower then "wire:eligible-missed:lower-qos-subscriber-present" else "wire:eligible-missed")
           s!"client {cid}: message {pl} (topic {topic}, qos {q}) never arrived"
       if !el && !copies.isEmpty then acc := acc.fail "wire:ineligible-served" s!"client {cid}: got {pl}"
       if copies.any (fun p => p.qos != q) then acc := acc.fail "wire:wrong-qos" s!"client {cid}: {pl}"
       if el then acc := acc.tag s!"delivered-qos={q}"
-    if rx.any (fun p => !(msgs.toList.any (fun mj => optStr mj "payload" == p.payload))) then
-      acc := acc.fail "wire:unknown-packet" s!"client {cid}: [{showPkts rx}]"
-    -- retransmission: ids in order of first arrival
+    if rxAll.any (fun p => !(msgs.toList.any (fun mj => optStr mj "payload" == p.payload))) then
+      acc := acc.fail "wire:unknown-packet" s!"client {cid}: [{showPkts rxAll}]"
     -- (QoS0 PUBLISH packets carry no packet id on the wire)
-    let rx0 := rx.filter (fun p => p.qos == 0)
-    let rx := rx.filter (fun p => p.qos != 0)
+    let rx0 := rxAll.filter (fun p => p.qos == 0)
+    let rx := rxAll.filter (fun p => p.qos != 0)
     let q1 := (rx.map (·.id)).eraseDups
     if (rx0.map (·.payload)).eraseDups.length != rx0.length then
       acc := acc.fail "wire:qos0-resent" s!"client {cid}: [{showPkts rx0}]"
@@ -298,18 +372,29 @@ def wire : Judge := liftJudge fun input obs => do
         if cs.any (fun p => p.payload != p0.payload || p.qos != p0.qos) then
           acc := acc.fail "wire:resend-changed-packet" s!"client {cid}: id {i} [{showPkts cs}]"
       | [] => pure ()
-    if ackMode == "now" then
-      for i in q1 do
-        if countId rx i > 2 then
-          acc := acc.fail "wire:resend-after-ack" s!"client {cid} (acks at once): id {i} arrived {countId rx i} times"
-    else if ackMode == "never" then
+    -- no resend after the acknowledgement: "!ack:i" is logged when the PINGRESP of the PINGREQ sent right
+    -- after our PUBACK(i) arrives, i.e. the broker has processed the PUBACK and everything it had queued
+    -- before is already here. A copy of i after that marker was produced after the acknowledgement.
+    let mut confirmed : List Nat := []
+    for e in log do
+      if e.startsWith "!ack:" then confirmed := (e.drop 5).toNat! :: confirmed
+      else if !e.startsWith "!" then
+        let p := parsePkt e
+        if p.qos == 1 && confirmed.contains p.id then
+          acc := acc.fail "wire:resend-after-ack" s!"client {cid}: id {p.id} arrived again after its PUBACK was processed"
+    if !confirmed.isEmpty then acc := acc.tag "ack-confirmed"
+    -- retransmission of the oldest unacknowledged message; "missing" only when the in-process canary
+    -- ticker (same 200 ms period) fired at least 10 times during the watch
+    if ackMode == "never" then
       match q1 with
       | [] => pure ()
       | h :: younger =>
         nontriv := true
         acc := acc.tag (if younger.isEmpty then "never-ack:one-pending" else "never-ack:several-pending")
-        if window ≥ 650 && countId rx h < 2 then
-          acc := acc.fail "wire:resend-missing" s!"client {cid} (never acks): oldest id {h} arrived {countId rx h} time(s) in {window} ms"
+        if countId rx h < 2 then
+          if canary ≥ 10 then
+            acc := acc.fail "wire:resend-missing" s!"client {cid} (never acks): oldest id {h} not re-sent during {canary} ticker periods"
+          else acc := acc.tag "inconclusive:resend-wait"
         for i in younger do
           if countId rx i > 1 then
             acc := acc.fail "wire:resend-not-oldest" s!"client {cid} (never acks): id {i} re-sent while {h} is unacknowledged"
@@ -319,11 +404,10 @@ def wire : Judge := liftJudge fun input obs => do
       | h :: _ =>
         nontriv := true
         acc := acc.tag "late-ack"
-        if window ≥ 650 && countId rx h < 2 then
-          acc := acc.fail "wire:resend-missing" s!"client {cid} (acks after 1st resend): oldest id {h} arrived once"
-        for i in q1 do
-          if countId rx i > 3 then
-            acc := acc.fail "wire:resend-after-ack" s!"client {cid} (acks after 1st resend): id {i} arrived {countId rx i} times"
+        if countId rx h < 2 then
+          if canary ≥ 10 then
+            acc := acc.fail "wire:resend-missing" s!"client {cid} (acks after 1st resend): oldest id {h} not re-sent during {canary} ticker periods"
+          else acc := acc.tag "inconclusive:resend-wait"
         -- head of line: the second copy of a younger id comes after the second copy of every older id
         let mut prev : Option Nat := some 0
         for i in q1 do
@@ -331,24 +415,31 @@ def wire : Judge := liftJudge fun input obs => do
           | some k, some pk => if k < pk then acc := acc.fail "wire:resend-not-oldest" s!"client {cid}: id {i}" else prev := some k
           | some _, none => acc := acc.fail "wire:resend-not-oldest" s!"client {cid}: id {i} re-sent before an older unacknowledged one"
           | none, _ => prev := none
-    -- inbound PUBLISH of this client: limiter admits the first `limit`, pipeline sees those, PUBACK for QoS1 not dropped
+    -- inbound PUBLISH of this client (conclusive after barrier 2: the broker has read them all and every
+    -- PUBACK it queued is here): the limiter admits the first `limit`, the pipeline sees exactly those,
+    -- and the PUBACK ids *as written on the wire* are, in order, the ids of the admitted QoS1 packets
+    -- that the pipeline did not drop.
     let mine := inbound.toList.filter (fun j => optStr j "c" == cid)
     let admitted := if limit == 0 then mine else mine.take limit
     let wantPipe := admitted.map (fun j => (optStr j "topic",
       (if optInt j "qos" == 0 then 0 else (optInt j "id").toNat), (optInt j "qos").toNat))
     let gotPipe := ((getArr obs "pipe").toOption.getD #[]).toList.filter (fun j => optStr j "c" == cid)
       |>.map (fun j => (optStr j "topic", (optInt j "id").toNat, (optInt j "qos").toNat))
-    if gotPipe != wantPipe then
-      acc := acc.fail "wire:pipeline-mismatch" s!"client {cid}: pipeline saw {gotPipe}, expected {wantPipe}"
     let wantAck := (admitted.filter (fun j => optInt j "qos" == 1 && !(optStr j "topic").startsWith "drop/")).map
       (fun j => (optInt j "id").toNat)
     let gotAck := ((getIntList paO cid).toOption.getD []).map Int.toNat
-    if gotAck != wantAck then
-      acc := acc.fail "wire:puback-mismatch" s!"client {cid}: PUBACK ids {gotAck}, expected {wantAck}"
+    if barriers ≥ 2 then
+      if gotPipe != wantPipe then
+        acc := acc.fail "wire:pipeline-mismatch" s!"client {cid}: pipeline saw {gotPipe}, expected {wantPipe}"
+      if gotAck != wantAck then
+        acc := acc.fail (if gotAck.length == wantAck.length then "wire:puback-wrong-id" else "wire:puback-count")
+          s!"client {cid}: PUBACK ids on the wire {gotAck}, published (admitted, QoS1, not dropped) {wantAck}"
+      if wantAck.length ≥ 3 then nontriv := true
+    else if !mine.isEmpty then acc := acc.tag "inconclusive:no-barrier"
     if !mine.isEmpty then acc := acc.tag "inbound-publish"
     if mine.length > admitted.length then acc := acc.tag "inbound-limited"
     if mine.any (fun j => (optStr j "topic").startsWith "drop/") then acc := acc.tag "inbound-pipeline-drop"
-  -- timing makes the run non-deterministic: the model side is the same set of inequalities
+  -- timing makes the run non-deterministic: the model side is the same set of order facts
   pure { agree := acc.spec, spec := acc.spec, tags := acc.tags ++ [s!"clients={clients.length}"],
          nontrivial := nontriv, sig := acc.sig, note := acc.note }
 
